@@ -7,7 +7,13 @@ part of the runs the two applications accept a tape-chosen set of options
 (TRANSMIT-BINARY = 0 among them) and either side negotiates before / between the
 writes, the second application writes too, and a receiving application raises
 for a tape-chosen delivery (the link logs the error and carries on, as a layer
-that calls the protocol under log.callWithLogger does).
+that calls the protocol under log.callWithLogger does).  The applications may
+also REACT from inside their callbacks (echo / answer a delivery, write from
+inside an option callback), B's application may relay what it receives over a
+second telnet connection C -> D, and in part of the runs the link is a
+synchronous in-memory pipe (detsim.net.SyncLink: write() hands the bytes to the
+peer at once), so that deliveries nest: one Telnet's dataReceived runs while
+another one - or the same one - is inside an application / option callback.
 Oracle: each application received exactly the bytes its peer's application wrote
 (once, in order), whatever was negotiated and whichever deliveries raised; LF
 went onto the wire as CR LF; no command/subnegotiation callback fires and no
@@ -21,20 +27,30 @@ from detsim import net
 ID = "C38"
 ENGINE = "net"
 LEVEL = "exploration"
-TECHNIQUE = "deterministic simulation: seeded write grouping + option negotiation + raising receiver + wire segmentation between two real TelnetTransports"
-QUICK_RUNS = 36000
+TECHNIQUE = ("deterministic simulation: seeded write grouping + option negotiation + raising receiver + reacting/relaying applications + wire segmentation "
+             "between real TelnetTransports over an asynchronous or a synchronous (nesting) in-memory link")
+QUICK_RUNS = 24000
 TWIN_P = 0.08   # this share of the runs drives two independent instances of the scenario one after the other (detsim.runner._run_scenario)
 BATCH = 200
 COMPONENTS = {"real": ["twisted.conch.telnet.TelnetTransport.write/writeSequence", "twisted.conch.telnet.Telnet.dataReceived",
                        "twisted.conch.telnet.Telnet.will/wont/do/dont and the option state maps (as far as they touch the data path)"],
               "stub": ["TCP transport and delivery segmentation (detsim.net.Link); the layer below the receiver catches and logs an "
                        "exception escaping from dataReceived and keeps the connection (log.callWithLogger behaviour)",
-                       "applications: record what they are given, accept a tape-chosen option set, raise on tape-chosen deliveries"]}
+                       "synchronous in-memory pipe (detsim.net.SyncLink): write() hands the bytes to the peer protocol at once, per-direction FIFO kept",
+                       "applications: record what they are given, accept a tape-chosen option set, raise on tape-chosen deliveries, echo / answer deliveries and "
+                       "write from inside option callbacks, relay deliveries over a second connection"]}
 RULE = ("run = 1..8 application writes (write or writeSequence, bytes from an alphabet rich in 0xFF, LF, NUL and telnet command bytes, no CR) "
         "through a sender TelnetTransport (30%: the other side writes as well), wire delivered in tape-chosen pieces; in half of the runs will/wont/do/dont "
         "requests about 1-2 options (TRANSMIT-BINARY 0, ECHO, SGA, LINEMODE, 255, CR, LF, TERMINAL-TYPE) accepted by a tape-chosen policy are issued by either "
         "side before/between the writes; in half of the runs the receiving application raises on tape-chosen deliveries and the link logs it and carries on; "
-        "non-trivial = payload contains 0xFF or LF and the wire was cut at least once")
+        "the applications may react from inside their callbacks, bounded by a per-run budget (0/2/4/8 reactive writes): echo or answer a delivery "
+        "(write/writeSequence from inside dataReceived), write from inside enableLocal/enableRemote/disableLocal/disableRemote; in 25% of the runs B's application "
+        "relays every delivery over a second pair of TelnetTransports C -> D (judged like the first); in 40% of the runs the links are synchronous "
+        "in-memory pipes (pieces: whole / single bytes / tape-chosen sizes) - a write is handed to the peer inside write(), so the peer's dataReceived, its "
+        "application's reaction and the answer nest inside the writer's callback, and an answer re-enters dataReceived of the protocol that is "
+        "calling out when the piece it was given is known to be consumed; the synchronous link can be corked across requests and writes so that one "
+        "piece holds data and commands; "
+        "non-trivial = payload contains 0xFF or LF and the wire was cut at least once or a delivery ran nested inside another")
 ASSUMPTIONS = ["application data contains no CR (per the statement)",
                "an application exception aborts the processing of the wire chunk being delivered (it propagates out of dataReceived); what becomes of the rest "
                "of THAT chunk is not judged: when a raising delivery happened in a chunk in which a negotiation command ended (the only place where application bytes are handed "
@@ -42,7 +58,13 @@ ASSUMPTIONS = ["application data contains no CR (per the statement)",
                "run only checks that nothing was duplicated so far and stops",
                "LF -> CR LF on the wire is judged while TRANSMIT-BINARY is not in effect for the writer (RFC 856 changes the wire form; the statement's "
                "end-to-end clause - the peer receives exactly the bytes written - is judged in every option state, both ends being the same implementation)",
-               "an endpoint requests will(o)/do(o) only for options its own application accepts"]
+               "an endpoint requests will(o)/do(o) only for options its own application accepts",
+               "the synchronous link keeps each direction a FIFO: bytes written towards a protocol that is inside dataReceived are queued behind the running "
+               "delivery, unless nothing of the piece being worked on can be left unconsumed (it is a single byte, or: all application bytes the wire held so far "
+               "have been given to the application and no negotiation command ends strictly inside the piece, judged by an independent reading of the wire) - "
+               "only then is the protocol re-entered, as a pipe calling peer.dataReceived from write() would do; a protocol that is re-entered while it calls out "
+               "about the LAST byte it was given must have taken that byte into account (parser state updated before the call-out)",
+               "an application that raises does so before reacting; reactive writes stop once the run stops judging"]
 
 ALPHABET = bytes([0xFF, 0xFF, 0xFF, 0x0A, 0x0A, 0x00, 0xF0, 0xFA, 0xFB, 0xFC, 0xFD, 0xFE, 0xF1, 0x41, 0x42, 0x20, 0x7F, 0x80])
 # option codes negotiated: TRANSMIT-BINARY first (the one option whose meaning is about the data path), the usual ones, and codes equal to stream-special bytes
@@ -50,6 +72,9 @@ OPTIONS = [b"\x00", b"\x01", b"\x03", b"\x22", b"\xff", b"\x0d", b"\x0a", b"\x18
 BINARY = b"\x00"
 AMOUNTS = (1, 2, 3, 5, 8, 17, 64, 1000, None)
 NEG_CALLBACKS = ("enableLocal", "enableRemote", "disableLocal", "disableRemote")
+ALL_NAMES = ("A", "B", "C", "D")      # A <-> B: the connection under test; C -> D: the second connection B's application relays over (part of the runs)
+BYTES_WITNESS = {"A": "sender-side", "B": "receiver", "C": "relay-sender-side", "D": "relay-receiver"}
+CMD_WITNESS = {"A": "sender", "B": "receiver", "C": "relay-sender", "D": "relay-receiver"}
 
 
 class AppError(Exception):
@@ -64,16 +89,21 @@ class App:
         self.remote_ok = remote_ok
         self.armed = False      # raise on the next delivery
         self.raised = 0
+        self.nbytes = 0         # application bytes given so far
+        self.react = None       # react(kind, payload): what the application does - from inside the callback - about what it was just given
 
     def makeConnection(self, t):
         self.transport = t
 
     def dataReceived(self, data):
         self.rec.append(("data", data))
+        self.nbytes += len(data)
         if self.armed:
             self.armed = False
             self.raised += 1
             raise AppError("application failed while handling %d bytes" % len(data))
+        if self.react is not None:
+            self.react("data", data)
 
     def connectionLost(self, reason):
         self.rec.append(("lost",))
@@ -84,19 +114,70 @@ class App:
     def unhandledSubnegotiation(self, command, data):
         self.rec.append(("subneg", command, data))
 
+    def _option(self, kind, option):
+        self.rec.append((kind, option))
+        if self.react is not None:
+            self.react(kind, option)
+
     def enableLocal(self, option):
-        self.rec.append(("enableLocal", option))
+        self._option("enableLocal", option)
         return option in self.local_ok
 
     def enableRemote(self, option):
-        self.rec.append(("enableRemote", option))
+        self._option("enableRemote", option)
         return option in self.remote_ok
 
     def disableLocal(self, option):
-        self.rec.append(("disableLocal", option))
+        self._option("disableLocal", option)
 
     def disableRemote(self, option):
-        self.rec.append(("disableRemote", option))
+        self._option("disableRemote", option)
+
+
+class WireScan:
+    """Reference reading of a telnet wire stream as far as this scenario produces it (RFC 854: IAC IAC is one data byte 255, IAC WILL/WONT/DO/DONT x
+    is a command, CR LF / CR NUL one data byte): how many application bytes it holds and where its negotiation commands end."""
+
+    def __init__(self):
+        self.pos = 0
+        self.state = "data"
+        self.napp = 0
+        self.cmd_ends = []      # offsets just past each negotiation command
+
+    def upto(self, stream):
+        i, st = self.pos, self.state
+        while i < len(stream):
+            c = stream[i]
+            i += 1
+            if st == "data":
+                if c == 0xFF:
+                    st = "iac"
+                elif c == 0x0D:
+                    st = "cr"
+                else:
+                    self.napp += 1
+            elif st == "iac":
+                if c == 0xFF:
+                    self.napp += 1
+                    st = "data"
+                else:
+                    st = "verb" if 0xFB <= c <= 0xFE else "data"
+            elif st == "verb":
+                self.cmd_ends.append(i)
+                st = "data"
+            else:   # after CR: CR LF is a line feed, CR NUL a carriage return; anything else leaves the CR as it is
+                self.napp += 1 if c in (0x0A, 0x00, 0xFF) else 2
+                st = "iac" if c == 0xFF else "data"
+        self.pos, self.state = i, st
+        return self
+
+
+class HookedSyncLink(net.SyncLink):
+    """Synchronous link whose deliveries go through the scenario (which arms the application, logs what it raises and carries on)."""
+    hook = None
+
+    def _deliver(self, t, chunk):
+        self.hook(self, t, chunk)
 
 
 def run(sim):
@@ -106,7 +187,7 @@ def run(sim):
     raise_w = sim.draw_choice([0, 0, 1, 3], "raise_weight")           # tenths: chance that a delivery makes the application raise
     duplex = sim.draw_bool(0.3, "duplex")                             # the second application writes too
     opts = []
-    policy = {"A": (set(), set()), "B": (set(), set())}
+    policy = {n: (set(), set()) for n in ALL_NAMES}
     if neg_w:
         for _ in range(sim.draw_int(1, 2, "nopts")):
             o = sim.draw_choice(OPTIONS, "option")
@@ -118,79 +199,139 @@ def run(sim):
                     policy[name][0].add(o)
                 if not sim.draw_bool(0.3, "refuse_remote"):
                     policy[name][1].add(o)
+    # how the link hands bytes over: later, when the scheduler says so (as a network does), or at once from inside write() (in-memory pipe)
+    sync = sim.draw_bool(0.4, "sync_link")
+    pieces = sim.draw_choice(["mixed", "bytewise", "whole"], "sync_pieces") if sync else None
+    # what the applications do, from inside their callbacks, about what they are given
+    react_budget = sim.draw_choice([0, 0, 2, 4, 8], "react_budget")  # at most this many reactive writes in the run (bounds ping-pong)
+    on_data = {n: "quiet" for n in ALL_NAMES}
+    on_option = {n: False for n in ALL_NAMES}
+    if react_budget:
+        for name in ("A", "B"):
+            on_data[name] = sim.draw_choice(["quiet", "answer", "echo"], "on_data")
+            on_option[name] = bool(neg_w) and sim.draw_bool(0.6, "on_option")
+    relay = sim.draw_bool(0.25, "relay")                              # B's application forwards what it receives over a second connection C -> D
+    names = ALL_NAMES if relay else ALL_NAMES[:2]
     sim.config = {"nwrites": nwrites, "interleave": interleave, "negotiation_weight": neg_w, "raise_weight": raise_w, "duplex": duplex,
                   "options": [o.hex() for o in opts],
-                  "policy": {n: {"local_ok": sorted(o.hex() for o in policy[n][0]), "remote_ok": sorted(o.hex() for o in policy[n][1])} for n in ("A", "B")}}
-    rec = {"A": [], "B": []}
-    tt = {"A": telnet.TelnetTransport(App, rec["A"], policy["A"][0], policy["A"][1]),
-          "B": telnet.TelnetTransport(App, rec["B"], policy["B"][0], policy["B"][1])}
-    a, b = tt["A"], tt["B"]
-    link = net.Link(sim, a, b)
-    link.connect()
-    trans = {"A": link.a, "B": link.b}
-    peer = {"A": "B", "B": "A"}
-    sent = {"A": bytearray(), "B": bytearray()}        # application bytes written by that side
-    mark = {"A": 0, "B": 0}                            # how much of that side's output has been attributed
-    cmd_ends = {"A": [], "B": []}                      # offsets (in that side's output stream) just past each negotiation command it wrote
+                  "policy": {n: {"local_ok": sorted(o.hex() for o in policy[n][0]), "remote_ok": sorted(o.hex() for o in policy[n][1])} for n in ("A", "B")},
+                  "link": "sync-" + pieces if sync else "async", "react_budget": react_budget,
+                  "on_data": {n: on_data[n] for n in ("A", "B")}, "on_option": {n: on_option[n] for n in ("A", "B")}, "relay": relay}
+    rec = {n: [] for n in names}
+    tt = {n: telnet.TelnetTransport(App, rec[n], policy[n][0], policy[n][1]) for n in names}
+    peer = {"A": "B", "B": "A", "C": "D", "D": "C"}
+    links = []
+    where = {}                                         # name -> (link, the link's own name of that side)
+    trans = {}
+    for x, y in (("A", "B"), ("C", "D"))[:2 if relay else 1]:
+        link = HookedSyncLink(sim, tt[x], tt[y], pieces=pieces, amounts=AMOUNTS, reenter=None) if sync else net.Link(sim, tt[x], tt[y])
+        links.append(link)
+        where[x], where[y] = (link, "A"), (link, "B")
+        trans[x], trans[y] = link.a, link.b
+    gname = {(link, lname): n for n, (link, lname) in where.items()}
+    sent = {n: bytearray() for n in names}             # application bytes written by that side
+    wire_in = {n: WireScan() for n in names}           # reference reading of the wire stream handed to that side so far
+    writing = {n: None for n in names}                 # the wire pieces of the application write that side is inside (None: whatever it writes is negotiation)
     requested = set()
     flags = {"unjudged": None}
+    budget = [react_budget]
 
-    def attribute(app_side=None):
-        """Attribute what each side wrote since the last call: the application's bytes (returned), or negotiation commands (3 bytes each)."""
-        grown = b""
-        for name in ("A", "B"):
-            cur = len(trans[name].written)
-            if cur == mark[name]:
-                continue
-            if name == app_side:
-                grown = bytes(trans[name].written[mark[name]:cur])
-            else:
-                cmd_ends[name].extend(range(mark[name] + 3, cur + 1, 3))
-            mark[name] = cur
-        return grown
+    def delivered(name):
+        link, lname = where[name]
+        return link.delivered[lname]
+
+    def tagger(name, pass_on):
+        """on_write hook of `name`'s transport: note the transport writes that belong to the application write in progress (the others are negotiation)."""
+        def on_write(t, data):
+            cur = writing[name]
+            if cur is not None:
+                cur.append(data)
+            if pass_on is not None:
+                writing[name] = None        # whatever `name` writes while the link hands these bytes over is not part of this application write
+                try:
+                    pass_on(t, data)
+                finally:
+                    writing[name] = cur
+        return on_write
 
     def got(name):
         return b"".join(e[1] for e in rec[name] if e[0] == "data")
 
+    def hand_over(name, start, end, call):
+        """One delivery (wire offsets start..end of the stream towards `name`): the receiving application may raise, which the link logs.
+        Returns False when the run must stop judging (see ASSUMPTIONS)."""
+        app = tt[name].protocol
+        app.armed = bool(raise_w) and sim.draw_int(0, 9, "app_raises") < raise_w
+        before = app.raised
+        with sim.guard("receiver-raised"):
+            try:
+                call()
+            except AppError:
+                # the layer below logs the application's error and keeps the connection (log.callWithLogger)
+                pass
+        app.armed = False
+        if app.raised > before:
+            sim.fault("app_raised")
+            sim.event("app-raised", name, end - start)
+            if any(start < p <= end for p in wire_in[name].upto(delivered(name)).cmd_ends):
+                # bytes were handed over in the middle of the chunk, in front of a negotiation command, and the exception cut the
+                # processing of the command and of the rest of the chunk short
+                sim.probe("raise_mid_chunk_rest_unjudged")
+                flags["unjudged"] = name
+                for l in links:
+                    if sync:
+                        l.frozen = True
+                return False
+            if got(name):
+                sim.probe("raise_then_more_judged")
+        return True
+
+    def may_reenter(link, lname, start, end):
+        """A write towards a protocol that is inside dataReceived with the piece start..end: may the link hand it over at once (re-entering that
+        protocol) without disturbing the stream order?  Yes when nothing of the piece can be left unconsumed: every application byte the wire
+        held up to `end` has been given to the application and no negotiation command ends inside the piece (a command that ends exactly at `end`, or
+        is cut by it, is fine: the protocol is calling out about the last byte it was given)."""
+        name = gname[(link, lname)]
+        w = wire_in[name].upto(link.delivered[lname])
+        ok = end == len(link.delivered[lname]) and tt[name].protocol.nbytes == w.napp and not any(start < p < end for p in w.cmd_ends)
+        if ok and end - start > 1:
+            sim.probe("reentered_after_a_longer_piece")
+            if w.cmd_ends and w.cmd_ends[-1] == end and end - start > 3:
+                sim.probe("reentered_at_command_end_after_data_in_the_same_piece")
+        return ok
+
+    def sync_deliver(link, t, chunk):
+        name = gname[(link, t.name)]
+        end = len(link.delivered[t.name])
+        hand_over(name, end - len(chunk), end, lambda: t.protocol.dataReceived(chunk))
+
+    for link in links:
+        link.connect()
+        for t in (link.a, link.b):
+            t.on_write = tagger(gname[(link, t.name)], link._on_write if sync else None)
+        if sync:
+            link.hook = sync_deliver
+            link.reenter = lambda lname, start, end, link=link: may_reenter(link, lname, start, end)
+
     def net_step():
-        """One tape-chosen network event (as Link.step); a delivery may make the receiving application raise, which the link logs."""
-        ev = link.enabled()
+        """One tape-chosen network event (as Link.step) of the asynchronous link; the synchronous one has nothing left to do between operations."""
+        if sync:
+            return False
+        ev = [(link, kind, lname) for link in links for kind, lname in link.enabled()]
         if not ev:
             return False
-        kind, name = sim.draw_choice(ev, "net")
+        link, kind, lname = ev[sim.draw_int(0, len(ev) - 1, "net")]
         amount = None
         if kind in ("xmit", "deliver"):
             amount = sim.draw_choice(list(AMOUNTS)[::-1], "amount")  # index 0 = everything
             if amount is not None:
                 sim.fault("segmentation")
         if kind != "deliver":
-            link.do(kind, name, amount)
+            link.do(kind, lname, amount)
             return True
-        app = tt[name].protocol
-        start = len(link.delivered[name])
-        app.armed = bool(raise_w) and sim.draw_int(0, 9, "app_raises") < raise_w
-        before = app.raised
-        with sim.guard("receiver-raised"):
-            try:
-                link.do(kind, name, amount)
-            except AppError:
-                # the layer below logs the application's error and keeps the connection (log.callWithLogger)
-                pass
-        app.armed = False
-        attribute()
-        if app.raised > before:
-            end = len(link.delivered[name])
-            sim.fault("app_raised")
-            sim.event("app-raised", name, end - start)
-            if any(start < p <= end for p in cmd_ends[peer[name]]):
-                # bytes were handed over in the middle of the chunk, in front of a negotiation command, and the exception cut the
-                # processing of the command and of the rest of the chunk short
-                sim.probe("raise_mid_chunk_rest_unjudged")
-                flags["unjudged"] = name
-                return False
-            if got(name):
-                sim.probe("raise_then_more_judged")
-        return True
+        start = len(link.delivered[lname])
+        n = len(link.flight[lname]) if amount is None else max(1, min(amount, len(link.flight[lname])))
+        return hand_over(gname[(link, lname)], start, start + n, lambda: link.do(kind, lname, amount))
 
     def negotiate():
         name = sim.draw_choice(["A", "B"], "neg_side")
@@ -203,64 +344,115 @@ def run(sim):
         with sim.guard("sender-raised", k):
             d = getattr(tt[name], k)(o)
         d.addErrback(lambda f: None)      # OptionRefused / AlreadyEnabled / AlreadyDisabled / AlreadyNegotiating: not this property's business
-        attribute()
         sim.probe("negotiation_request")
 
-    def write_one():
-        name = "B" if duplex and sim.draw_bool(0.4, "writer") else "A"
+    def app_write(name, data=None):
+        """The application of `name` writes through its telnet transport: `data` (an echo / a forwarded delivery), or fresh tape-chosen bytes."""
         t = tt[name]
         if sim.draw_bool(0.4, "use_seq"):
-            parts = [sim.draw_bytes(sim.draw_int(0, 6, "len"), ALPHABET) for _ in range(sim.draw_int(1, 4, "nparts"))]
+            if data is None:
+                parts = [sim.draw_bytes(sim.draw_int(0, 6, "len"), ALPHABET) for _ in range(sim.draw_int(1, 4, "nparts"))]
+            else:
+                k = sim.draw_int(0, len(data), "split")
+                parts = [data[:k], data[k:]]
             # ITransport.writeSequence takes any iterable of bytes: a list, a tuple, or a one-shot iterator / generator
             kind = sim.draw_choice(["list", "tuple", "iter", "generator"], "iovec")
             sim.event("writeSequence", name, kind, *parts)
             arg = parts if kind == "list" else tuple(parts) if kind == "tuple" else iter(parts) if kind == "iter" else (p for p in parts)
-            with sim.guard("sender-raised", "writeSequence"):
-                t.writeSequence(arg)
+            label, call = "writeSequence", lambda: t.writeSequence(arg)
             sim.probe("writeSequence")
             if kind in ("iter", "generator"):
                 sim.probe("writeSequence_one_shot_iterable")
             data = b"".join(parts)
         else:
-            data = sim.draw_bytes(sim.draw_int(0, 10, "len"), ALPHABET)
+            if data is None:
+                data = sim.draw_bytes(sim.draw_int(0, 10, "len"), ALPHABET)
             sim.event("write", name, data)
-            t.write(data)
+            label, call = "write", lambda: t.write(data)
         sent[name] += data
-        wire = attribute(name)
         st = t.options.get(BINARY)
-        if st is not None and (st.us.state == "yes" or st.us.negotiating):
+        binary = st is not None and (st.us.state == "yes" or st.us.negotiating)
+        pst = tt[peer[name]].options.get(BINARY)
+        if b"\n" in data and pst is not None and pst.him.state == "yes":
+            sim.probe("lf_written_to_binary_receiver")
+        outer = writing[name]
+        pieces_written = writing[name] = []
+        try:
+            with sim.guard("sender-raised", label):
+                call()
+        finally:
+            writing[name] = outer
+        wire = b"".join(pieces_written)
+        if binary:
             sim.probe("write_in_binary_mode")
         else:
             # "line feeds sent as CR LF": every LF written is a CR LF pair on the wire and there is no other CR
             n = data.count(b"\n")
             sim.check("lf-as-crlf", wire.count(b"\r\n") == n and wire.count(b"\n") == n and wire.count(b"\r") == n, "wire",
                       lambda: "%s wrote %r, wire %r" % (name, data, wire))
-        pst = tt[peer[name]].options.get(BINARY)
-        if b"\n" in data and pst is not None and pst.him.state == "yes":
-            sim.probe("lf_written_to_binary_receiver")
+
+    def reaction(name):
+        def react(kind, payload):
+            if flags["unjudged"]:
+                return
+            if kind == "data" and name == "B" and relay:
+                sim.probe("relay_forward_inside_dataReceived")
+                app_write("C", payload)
+            if budget[0] <= 0:
+                return
+            if kind == "data":
+                if on_data[name] == "quiet" or not sim.draw_bool(0.6, "reacts"):
+                    return
+                budget[0] -= 1
+                sim.probe("write_inside_dataReceived_%s" % on_data[name])
+                app_write(name, payload if on_data[name] == "echo" else None)
+            else:
+                if not on_option[name] or not sim.draw_bool(0.7, "reacts"):
+                    return
+                budget[0] -= 1
+                sim.probe("write_inside_option_callback")
+                app_write(name)
+        return react
+
+    for name in ("A", "B"):
+        if relay or on_data[name] != "quiet" or on_option[name]:
+            tt[name].protocol.react = reaction(name)
 
     def finish():
         lossy = flags["unjudged"]
-        for name in ("A", "B"):
+        for name in names:
             w = peer[name]
             g = got(name)
             sim.event("received", name, g)
             stray = [e for e in rec[name] if e[0] != "data" and not (e[0] in NEG_CALLBACKS and e[1] in requested)]
-            sim.check("no-command-fired", not stray, "receiver" if name == "B" else "sender",
+            sim.check("no-command-fired", not stray, CMD_WITNESS[name],
                       lambda: "%s callbacks fired: %r (peer sent %r)" % (name, stray[:3], bytes(sent[w])))
             if lossy is not None:
                 # the run stopped early: nothing may have been delivered twice or out of order so far
                 sim.check("bytes-equal", bytes(sent[w]).startswith(g), "prefix",
                           lambda: "%s received %r which is not a prefix of %r; wire %r" % (name, g, bytes(sent[w]), bytes(trans[w].written)))
             else:
-                sim.check("bytes-equal", g == bytes(sent[w]), "receiver" if name == "B" else "sender-side",
+                sim.check("bytes-equal", g == bytes(sent[w]), BYTES_WITNESS[name],
                           lambda: "%s: peer sent %r got %r wire %r (%d raising deliveries)" % (name, bytes(sent[w]), g, bytes(trans[w].written), tt[name].protocol.raised))
-        if not duplex:
-            sim.check("sender-quiet", not [e for e in rec["A"] if e[0] == "data"], "sender", "sender app saw %r" % (rec["A"][:3],))
-        allsent = bytes(sent["A"] + sent["B"])
-        sim.nontrivial = (b"\xff" in allsent or b"\n" in allsent) and sim.faults.get("segmentation", 0) > 0
+            if not sent[w] and name in ("A", "C"):
+                sim.check("sender-quiet", not [e for e in rec[name] if e[0] == "data"], CMD_WITNESS[name], "%s app saw %r" % (name, rec[name][:3]))
+        allsent = b"".join(bytes(sent[n]) for n in names)
+        sim.nontrivial = ((b"\xff" in allsent or b"\n" in allsent)
+                          and (sim.faults.get("segmentation", 0) > 0 or sim.probes.get("sync_delivery_nested_in_peer_delivery", 0) > 0))
+
+    def cork(hold):
+        """Synchronous link: cork it (what is written queues up) or uncork it (everything queued is handed over at once, so that one piece can hold
+        what several writes and requests produced)."""
+        for link in links:
+            if hold and not link.held:
+                sim.probe("link_corked")
+                link.held = True
+            elif not hold and link.held:
+                link.release()
 
     for i in range(nwrites):
+        if sync:
+            cork(sim.draw_bool(0.3, "corked"))
         if neg_w:
             for _ in range(sim.draw_int(0, neg_w, "nrequests")):
                 negotiate()
@@ -269,13 +461,17 @@ def run(sim):
                         break
                 if flags["unjudged"]:
                     return finish()
-        write_one()
+        if sync:
+            cork(sim.draw_bool(0.3, "corked"))
+        app_write("B" if duplex and sim.draw_bool(0.4, "writer") else "A")
         if interleave:
             for _ in range(sim.draw_int(0, 3, "netsteps")):
                 if not net_step():
                     break
-            if flags["unjudged"]:
-                return finish()
+        if flags["unjudged"]:
+            return finish()
+    if sync:
+        cork(False)
     n = 0
     while n < 100000 and net_step():
         n += 1
@@ -290,4 +486,12 @@ MUTANTS = [
     "[option negotiation family]",
     "telnet.py ProtocolTransportMixin.write: LF no longer translated to CR LF -> caught ONLY by lf-as-crlf:wire (a bare LF passes the receiver unchanged, so the end-to-end clause holds)",
     "telnet.py dataReceived, flush in front of a negotiation command: `del appDataBuffer[:]` dropped -> caught (bytes-equal:receiver/sender-side/prefix) [negotiation between writes]",
+    "telnet.py Telnet: the list dataReceived collects application bytes in made a class attribute shared by all instances (cleared after each hand-over) -> caught "
+    "(bytes-equal:relay-receiver / receiver / sender-side) [synchronous link: echoing peer, relay C -> D; seed C38-r5a]",
+    "telnet.py Telnet.dataReceived: the collecting list kept per instance and cleared after the hand-over (same-instance re-entrancy hands bytes over twice) -> caught "
+    "(bytes-equal:receiver/sender-side/prefix) [synchronous link, answer re-enters the protocol that is calling out]",
+    "telnet.py dataReceived 'command' branch: self.state = 'data' only after the call-outs -> caught (no-command-fired:sender, receiver-raised:ValueError/RecursionError) "
+    "[synchronous link + write inside option callback + answering peer; seed C38-r5b]",
+    "telnet.py dataReceived 'command' branch: self.state = 'data' after the flush of pending data but before commandReceived -> caught (receiver-raised:AttributeError) "
+    "[corked synchronous link: data and command in one piece, both applications reacting]",
 ]
